@@ -31,11 +31,24 @@ def cps(s) -> list:
 
 
 def _points(s):
+    """Called with tracing off.  The length is taken without the solver when it is concrete; a symbolic length is realised
+    under tracing (forks)."""
     from crosshair.core import realize
+    from crosshair.tracers import ResumedTracing
+
+    from .engine_ch import _concrete_len
 
     pts = s._codepoints
-    n = realize(len(pts))
-    return [pts[i] for i in range(n)]
+    n = _concrete_len(pts)
+    if n is not None:
+        try:
+            return [pts[i] for i in range(n)]
+        except BaseException as e:
+            if type(e).__name__ != "CrossHairInternal":
+                raise
+    with ResumedTracing():
+        n = realize(len(pts))
+        return [pts[i] for i in range(n)]
 
 
 def ceq(x, o: int) -> bool:
